@@ -63,6 +63,9 @@ def run(rec, hub, tier, seed, shard, nshards, budget):
         if not budget.ok():
             break
         run_huge_set(rec, hub, seed, shard, nshards, tier, g)
+    for g in range(20 if tier == "quick" else 60):
+        rec.set_case(driver="c14.special", seed=seed, tier=tier, shard=shard, nshards=nshards, idx=g * nshards + shard)
+        run_special(rec, hub, D, seed, g * nshards + shard)
     # -- 2. exhaustive pairs ---------------------------------------------------
     universe = "abcde" if tier == "thorough" else "abcd"
     subs = ordered_subsets(universe)
@@ -155,12 +158,70 @@ def run_huge_set(rec, hub, seed, shard, nshards, tier, g):
     O.check_lookups(rec, fd, ds.drop(sub[0]), LDimSet([d for d in m.dims if d[0] != sub[0]]))
 
 
+def run_special(rec, hub, D, seed, g):
+    """(a) a dimension replaced by one of the SAME NAME under a new letter (a re-lettered dimension), addressed by letter or by name, in
+    place or not; (b) sets obtained from DimensionSet.empty() (and the dimension sets of scalar arrays) are sets of their own: growing
+    one in place leaves every other one, earlier or later, empty"""
+    fd = hub.fd
+    rng = case_rng(seed, "c14.special", 0, g)
+    M = "dimset-special"
+    letters = [l for l in "abcd" if l in D]
+    k = rng.randint(1, len(letters))
+    order = rng.sample(letters, k)
+    for by in ("letter", "name"):
+        for inplace in (False, True):
+            ds = fd.DimensionSet(dim_list=[D[l] for l in order])
+            l = rng.choice(order)
+            nd = fd.Dimension(letter=l.upper(), name=D[l].name, items=list(D[l].items)[::-1] + ["one more"])
+            want = [(x.upper() if x == l else x) for x in order]
+            rec.event(M, sig=f"replace-same-name|{by}|{inplace}|{k}", cls=f"replace by a dimension of the same name under a new letter|by {by}|{'in place' if inplace else 'new set'}")
+            try:
+                r = ds.replace(l if by == "letter" else D[l].name, nd, inplace=inplace)
+                got_set = ds if inplace else r
+                w = {"by": by, "inplace": inplace, "before": order, "got": list(got_set.letters), "expected": want}
+                if list(got_set.letters) != want or list(got_set[l.upper()].items) != list(nd.items):
+                    rec.violation(M, "replace-by-a-same-named-dimension-under-a-new-letter:wrong-set", w)
+                if not inplace and list(ds.letters) != order:
+                    rec.violation(M, "replace-by-a-same-named-dimension-under-a-new-letter:source-set-changed", w)
+            except Exception as e:
+                rec.violation(M, "replace-by-a-same-named-dimension-under-a-new-letter:raised", {"by": by, "inplace": inplace, "before": order, "exc": repr(e)[:200]})
+    # (b)
+    e1, e2 = fd.DimensionSet.empty(), fd.DimensionSet.empty()
+    sc = fd.FlodymArray.scalar(1.5) if hasattr(fd.FlodymArray, "scalar") else None
+    how = rng.choice(["append", "prepend", "insert", "expand_by"])
+    rec.event(M, sig=f"empty-sets|{how}", cls=f"sets from DimensionSet.empty() are independent|grown by {how}")
+    try:
+        d0 = D[rng.choice(letters)]
+        if how == "append":
+            e1.append(d0, inplace=True)
+        elif how == "prepend":
+            e1.prepend(d0, inplace=True)
+        elif how == "insert":
+            e1.insert(0, d0, inplace=True)
+        else:
+            e1.expand_by([d0], inplace=True)
+        e3 = fd.DimensionSet.empty()
+        sc2 = fd.FlodymArray.scalar(2.5) if sc is not None else None
+        others = {"another empty() made before": e2, "an empty() made afterwards": e3}
+        if sc is not None:
+            others.update({"the set of a scalar array made before": sc.dims, "the set of a scalar array made afterwards": sc2.dims})
+        for what, o in others.items():
+            if len(o.dim_list) != 0 or tuple(o.letters) != ():
+                rec.violation(M, "empty-set-grown-in-place-changed-another-empty-set", {"how": how, "which": what, "letters_now": list(o.letters)})
+        if list(e1.letters) != [d0.letter]:
+            rec.violation(M, "empty-set-grown-in-place:wrong-set", {"how": how, "letters_now": list(e1.letters)})
+    except Exception as e:
+        rec.violation(M, "empty-set-grown-in-place:raised", {"how": how, "exc": repr(e)[:200]})
+
+
 def replay(rec, hub, case):
     fd = hub.fd
     O.register(hub)
     D = mkdims(fd)
     rec.set_case(**case)
-    if case["driver"] == "c14.huge":
+    if case["driver"] == "c14.special":
+        run_special(rec, hub, D, case["seed"], case["idx"])
+    elif case["driver"] == "c14.huge":
         run_huge_set(rec, hub, case["seed"], case["shard"], case["nshards"], case["tier"], case["idx"])
     elif case["driver"] == "c14.pairs":
         run_pair(rec, hub, D, tuple(case["a"]), tuple(case["b"]), ["__or__", "__and__", "__sub__", "__xor__", "__add__", "union_with", "intersect_with", "difference_with"])
